@@ -132,6 +132,12 @@ func zzLifeSetup(c *Controller) error {
 	if fault == "setup" {
 		return errors.New("bad directive argument")
 	}
+	if fault == "gate" {
+		// a slow directive: reports that it was reached, waits to be released, then fails
+		zzAtGate <- struct{}{}
+		<-zzGate
+		return errors.New("gated directive failed")
+	}
 	cb := func(kind string, fail bool) func() error {
 		return func() error {
 			zzEvent(kind + "@" + tag)
@@ -165,6 +171,9 @@ func zzLifeRegister() {
 	})
 	RegisterPlugin("life", Plugin{ServerType: "zzlife", Action: zzLifeSetup})
 }
+
+// zzGate/zzAtGate: hand-offs for a load that is held inside a directive's setup.
+var zzGate, zzAtGate chan struct{}
 
 // zzTwoKeys: the server block is written with two site addresses.
 var zzTwoKeys bool
